@@ -1,5 +1,5 @@
 """C06 -- decoded views are faithful and supplied values read back unchanged."""
-from .common import run_progs, run_harvest
+from .common import run_progs, run_harvest, run_value_machine
 from .quoterlevel import run_quoter_level
 
 FINISH = dict(rule="R1 MC_Quoters Inv_C06_Decode / Inv_C06_ReadBack (unquoter model = Decode on every escape-token string); R2 "
@@ -17,4 +17,5 @@ def run(out, sc, tier, seed):
                                "encoded_p": 0.15}, "progs")
     run_progs(out, sc, "C06", {"gen": "c06raw", "maxtok": 2 if tier == "quick" else 3, "fields": FIELDS, "seed": seed}, "raw",
               backends=("c", "py"))
+    run_value_machine(out, sc, "C06", tier, fields=FIELDS)
     run_harvest(out, sc, "C06")
